@@ -22,6 +22,17 @@ Theorem c07_parse_print :
 Proof. exact parse_print. Qed.
 Print Assumptions c07_parse_print.
 
+(* names containing a newline (known finding C07-newline-name; c07_parse_print above is the strongest true
+   restriction): the stream name "a\nb" makes the file unloadable, the stream name "x: 1\n    y" makes it
+   load as the two streams x -> 1 and y -> 2 *)
+Theorem c07_parse_print_newline_refuted :
+  (exists e, parse (print_jobs [nl_job_unloadable]) = Err e) /\
+  parse (print_jobs [nl_job_forged]) =
+    Ok [{| efile := [102]%N; esid := 1%N; ets := Some 0%Z; estreams := [([120]%N, 1%Z); ([121]%N, 2%Z)] |}] /\
+  parse (print_jobs [nl_job_forged]) <> Ok (expected_load [nl_job_forged]).
+Proof. exact parse_print_newline_refuted. Qed.
+Print Assumptions c07_parse_print_newline_refuted.
+
 (* ---- protocol: every crash point, every pattern of failing calls -----------------------------------
    for the protocol p GENERATED from the source, every old and new content, every device behaviour
    (oracle: which calls fail, how much a failing write transferred):
@@ -33,7 +44,7 @@ Print Assumptions c07_parse_print.
    3. when no call fails, the new snapshot is in place at the end. *)
 Theorem c07_save_crash_safe_filed :
   forall (old new : bytes) (o : oracle),
-    let evs := run new filed_save_protocol o fs0 in
+    let evs := run_proto new filed_save_protocol o fs0 in
     Forall (fun s =>
               (reader_sees old s = old \/ reader_sees old s = new) /\
               (forall c, after_crash old s c -> c = old \/ c = new))
@@ -46,7 +57,7 @@ Print Assumptions c07_save_crash_safe_filed.
 
 Theorem c07_save_crash_safe_generic :
   forall (old new : bytes) (o : oracle),
-    let evs := run new generic_save_protocol o fs0 in
+    let evs := run_proto new generic_save_protocol o fs0 in
     Forall (fun s =>
               (reader_sees old s = old \/ reader_sees old s = new) /\
               (forall c, after_crash old s c -> c = old \/ c = new))
@@ -129,9 +140,9 @@ Example c07_protocol_nonvacuous :
   protocol_safe filed_save_protocol = true /\ protocol_safe generic_save_protocol = true /\
   protocol_safe legacy_filed_protocol = false /\ protocol_safe legacy_generic_protocol = false /\
   protocol_safe rename_before_sync_protocol = false /\
-  reader_sees [9%N] (fs_run [1%N] fs0 (run [1%N] filed_save_protocol [] fs0)) = [1%N] /\
-  reader_sees [9%N] (fs_run [1%N] fs0 (run [1%N] filed_save_protocol [None; Some 0%nat] fs0)) = [9%N] /\
-  reader_sees [9%N] (fs_run [1%N] fs0 (run [1%N] generic_save_protocol [None; None; Some 0%nat] fs0)) = [9%N].
+  reader_sees [9%N] (fs_run [1%N] fs0 (run_proto [1%N] filed_save_protocol [] fs0)) = [1%N] /\
+  reader_sees [9%N] (fs_run [1%N] fs0 (run_proto [1%N] filed_save_protocol [None; Some 0%nat] fs0)) = [9%N] /\
+  reader_sees [9%N] (fs_run [1%N] fs0 (run_proto [1%N] generic_save_protocol [None; None; Some 0%nat] fs0)) = [9%N].
 Proof. vm_compute. repeat split; reflexivity. Qed.
 
 (* a commit lands between "save begins" and "save locks the job", another one after it: the file holds the
